@@ -81,6 +81,12 @@ func nodeStr(e ast.Node) string {
 
 func (sc *SpecScope) lookupType(name string) types.Type {
 	c := sc.c
+	if strings.HasPrefix(name, "[]") {
+		if et := sc.lookupType(name[2:]); et != nil {
+			return types.NewSlice(et)
+		}
+		return nil
+	}
 	if i := strings.Index(name, "."); i >= 0 {
 		pn, tn := name[:i], name[i+1:]
 		for _, p := range c.eng.pkgs {
@@ -114,6 +120,10 @@ func (sc *SpecScope) lookupType(name string) types.Type {
 
 func typeExprName(e ast.Expr) string {
 	switch x := e.(type) {
+	case *ast.ArrayType:
+		if x.Len == nil {
+			return "[]" + typeExprName(x.Elt)
+		}
 	case *ast.Ident:
 		return x.Name
 	case *ast.SelectorExpr:
